@@ -137,9 +137,14 @@ def run(rep, tier, seed, keep=False):
             if s['remap']:
                 # the (target, argument-map) form of a remapping is meaningful for method calls only
                 remap = {'src': ('dst', {})} if (n % 2 and form == 'method') else {'src': 'dst'}
-            yaqlization.yaqlize(obj, yaqlize_attributes=bool(s['attrs']), yaqlize_methods=bool(s['methods']), yaqlize_indexer=bool(s['indexer']),
-                                whitelist=[ENTRY[str(e)]() for e in sorted(s['wl'])] or None, blacklist=[ENTRY[str(e)]() for e in sorted(s['bl'])] or None,
-                                attribute_remapping=remap, blacklist_remapped_attributes=bool(s['blr']))
+            # (the two ways of writing it: yaqlize(obj, settings...) and the decorator form yaqlize(settings...)(obj))
+            kw_ = dict(yaqlize_attributes=bool(s['attrs']), yaqlize_methods=bool(s['methods']), yaqlize_indexer=bool(s['indexer']),
+                       whitelist=[ENTRY[str(e)]() for e in sorted(s['wl'])] or None, blacklist=[ENTRY[str(e)]() for e in sorted(s['bl'])] or None,
+                       attribute_remapping=remap, blacklist_remapped_attributes=bool(s['blr']))
+            if n % 3 == 2:
+                yaqlization.yaqlize(**kw_)(obj)
+            else:
+                yaqlization.yaqlize(obj, **kw_)
             del log[:]
             if form == 'attr':
                 text = '$o.%s' % name if not name.startswith('__') else None
